@@ -417,6 +417,19 @@ def main():
         import copy
         return ast.unparse(R().visit(copy.deepcopy(node)))
 
+    # gate.density2d: the statements that select the accepted bins (identified by their target names) and the fraction check
+    dens = []
+    d2 = top_func(trees['gate'], 'density2d')
+    want = ['n', 'vD', 'vH', 'sidx', 'svH', 'csvH', 'Nidx', 'accepted_bin_indices']
+    for n in ast.walk(d2):
+        if isinstance(n, ast.Assign) and len(n.targets) == 1 and isinstance(n.targets[0], ast.Name) and n.targets[0].id in want:
+            dens.append((n.lineno, ' '.join(ast.unparse(n).split())))
+        if isinstance(n, ast.If) and 'gate_fraction' in ast.unparse(n.test) and any(isinstance(b, ast.Raise) for b in n.body):
+            dens.append((n.lineno, 'refuse if ' + ' '.join(ast.unparse(n.test).split())))
+        if isinstance(n, ast.Subscript) and isinstance(n.ctx, ast.Store) and ast.unparse(n.value) == 'v_bin_mask':
+            dens.append((n.lineno, 'v_bin_mask[' + ast.unparse(n.slice) + '] = True'))
+    dens = [t for _, t in sorted(dens)]
+
     # stats.py: for every public function the channel slicing rule and the numeric statements (everything that is not the slicing)
     stats_defs = []
     for n in trees['stats'].body:
@@ -435,7 +448,7 @@ def main():
         'writeSites': ws, 'hashes': hashes,
         'sampleRaiseSites': sample_raises, 'beadsRaiseSites': beads_raises, 'outputSheetSpec': [[n, c] for n, c in sheets],
         'statsHeadColumns': head, 'statsPerChannelSuffixes': per,
-        'statsDefinitions': [list(t) for t in stats_defs],
+        'statsDefinitions': [list(t) for t in stats_defs], 'densitySelection': dens,
         'sampleKeywords': sample_keywords, 'fileKeywords': file_keywords, 'vendorMarks': vendor_marks,
         'samplePipelineCalls': [list(t) for t in sample_calls], 'statColumnFunctions': [list(t) for t in stat_cols], 'positiveEventsRule': pos_rule,
         'summary': {'sampleFields': len(sample_fields), 'finalizeFields': len(finalize_fields),
@@ -467,6 +480,7 @@ def main():
     L.append('def fileKeywords : List String := [' + ', '.join(lstr(x) for x in file_keywords) + ']')
     L.append('def vendorMarks : List String := [' + ', '.join(lstr(x) for x in vendor_marks) + ']')
     L.append('def statsDefinitions : List (String × String) := [' + ',\n  '.join('(%s, %s)' % tuple(lstr(x) for x in t) for t in stats_defs) + ']')
+    L.append('def densitySelection : List String := [' + ',\n  '.join(lstr(x) for x in dens) + ']')
     L.append('def samplePipelineCalls : List (String × String × String) := [' + ',\n  '.join('(%s, %s, %s)' % tuple(lstr(x) for x in t) for t in sample_calls) + ']')
     L.append('def statColumnFunctions : List (String × String × String) := [' + ',\n  '.join('(%s, %s, %s)' % tuple(lstr(x) for x in t) for t in stat_cols) + ']')
     L.append('def positiveEventsRule : List String := [' + ', '.join(lstr(x) for x in pos_rule) + ']')
